@@ -296,7 +296,7 @@ class VerusFile:
             self._canary(fq, head, where, contract)
 
     def step(self, rel, anchor, fq, signature, contract=None, props=(), rewrites=(), scrutinee=None,
-             exclude=None, pre_match="", post_match="", arm_rewrites=None, attrs=""):
+             exclude=None, pre_match="", post_match="", arm_rewrites=None, attrs="", cases=None):
         """Per-node step extraction (DESIGN 3.2): cut the arms of the `match` at `anchor` verbatim and
         generate  `<signature> { <pre_match> let step_result = match <scrutinee> { ARMS }; <post_match> step_result }`.
 
@@ -340,7 +340,10 @@ class VerusFile:
             signature.strip(), pre_match, scr, "\n".join(out), post_match)
         text = drop_vis(strip_docs(text))
         text = self._apply(text, rewrites, anchor)
-        self.fn_text(fq, text, contract, props, file=rel, lines=reg.lines(), anchor=anchor, attrs=attrs)
+        if cases:
+            self.fn_cases(fq, text, contract, props, cases, file=rel, lines=reg.lines(), anchor=anchor, attrs=attrs)
+        else:
+            self.fn_text(fq, text, contract, props, file=rel, lines=reg.lines(), anchor=anchor, attrs=attrs)
         return pats
 
     def const(self, rel, anchor, fq, ensures=(), props=(), rewrites=()):
